@@ -98,3 +98,87 @@ Proof.
   specialize (H x y Hx Hy). rewrite orb_true_iff, Nat.eqb_eq in H. destruct H as [H|H]; [contradiction|].
   apply Qle_bool_iff, H.
 Qed.
+
+(* ------------------------------------------------------------------ *)
+(* the per-concept checker [flat_validb] (bit 3 of the case code): what its
+   acceptance of an id column means *)
+From LV Require Import Cognates.LexIndexProofs.
+
+Lemma nodupb_in l x : In x (nodupb l) <-> In x l.
+Proof.
+  induction l as [|y l IH]; cbn [nodupb]; [tauto|].
+  destruct (existsb (Nat.eqb y) l) eqn:E.
+  - rewrite IH. split; [intros H; right; exact H|]. intros [->|H]; [|exact H].
+    apply existsb_exists in E. destruct E as [z [Hz Ez]]. apply Nat.eqb_eq in Ez. subst. exact Hz.
+  - cbn [In]. rewrite IH. tauto.
+Qed.
+
+Lemma nodupb_nodup l : NoDup (nodupb l).
+Proof.
+  induction l as [|y l IH]; cbn [nodupb]; [constructor|].
+  destruct (existsb (Nat.eqb y) l) eqn:E; [exact IH|]. constructor; [|exact IH].
+  rewrite nodupb_in. intros H. assert (existsb (Nat.eqb y) l = true); [|congruence].
+  apply existsb_exists. exists y. split; [exact H|apply Nat.eqb_refl].
+Qed.
+
+(* position p of the concept lies in the induced block of its identifier *)
+Lemma induced_block out idx p : p < length idx ->
+  let g := cog out (nth p idx 0) in
+  exists v, In (g, v) (induced out idx) /\ In p v /\
+            forall q, In q v <-> q < length idx /\ cog out (nth q idx 0) = g.
+Proof.
+  intros Hp g. unfold induced. set (cs := map (cog out) idx).
+  assert (N : forall q, q < length idx -> nth q cs 0 = cog out (nth q idx 0)).
+  { intros q Hq. unfold cs. rewrite (nth_indep _ 0 (cog out 0)) by (rewrite map_length; exact Hq).
+    apply (map_nth (cog out)). }
+  exists (filter (fun i => Nat.eqb (nth i cs 0) g) (seq 0 (length idx))).
+  assert (F : forall q, In q (filter (fun i => Nat.eqb (nth i cs 0) g) (seq 0 (length idx))) <->
+                        q < length idx /\ cog out (nth q idx 0) = g).
+  { intros q. rewrite filter_In, in_seq, Nat.eqb_eq. split.
+    - intros [[_ L] E]. cbn in L. split; [exact L|]. rewrite <- N by exact L. exact E.
+    - intros [L E]. split; [cbn; lia|]. rewrite N by exact L. exact E. }
+  split; [|split; [apply F; split; [exact Hp|reflexivity]|exact F]].
+  rewrite in_map_iff. exists g. split; [reflexivity|]. apply nodupb_in. unfold cs, g.
+  apply in_map. apply nth_In, Hp.
+Qed.
+
+(* complete linkage: an accepted column puts only words within the threshold of
+   each other (entries of the model's matrix of the concept) into one set *)
+Theorem flat_validb_complete_sound avg_ok thr s wl out :
+  flat_validb avg_ok Complete thr s wl out = true ->
+  forall c i j, In c (concepts wl) -> i < length (indices wl c) -> j < length (indices wl c) -> i <> j ->
+    cog out (nth i (indices wl c) 0) = cog out (nth j (indices wl c) 0) ->
+    (dm (concept_matrix s (indices wl c)) i j <= thr)%Q.
+Proof.
+  unfold flat_validb. rewrite forallb_forall. intros H c i j Hc Hi Hj N E.
+  specialize (H c Hc). cbv zeta in H. rewrite !andb_true_iff in H. destruct H as [_ [_ Hd]].
+  cbn [linkageb] in Hd. destruct (induced_block out (indices wl c) i Hi) as [v [Hv [Iv F]]].
+  apply (diameterb_sound thr _ _ Hd (cog out (nth i (indices wl c) 0), v) i j Hv Iv); [|exact N].
+  cbn [snd]. apply F. split; [exact Hj|]. symmetry. exact E.
+Qed.
+
+(* every linkage with an exact comparison: the blocks of two different identifiers
+   of a concept have linkage above the threshold *)
+Theorem flat_validb_terminal_sound thr meth s wl out :
+  flat_validb true meth thr s wl out = true ->
+  forall c i j, In c (concepts wl) -> i < length (indices wl c) -> j < length (indices wl c) ->
+    cog out (nth i (indices wl c) 0) <> cog out (nth j (indices wl c) 0) ->
+    exists va vb,
+      (forall q, In q va <-> q < length (indices wl c) /\
+                 cog out (nth q (indices wl c) 0) = cog out (nth i (indices wl c) 0)) /\
+      (forall q, In q vb <-> q < length (indices wl c) /\
+                 cog out (nth q (indices wl c) 0) = cog out (nth j (indices wl c) 0)) /\
+      ~ (linkf meth (cross (dm (concept_matrix s (indices wl c))) va vb) <= thr)%Q.
+Proof.
+  unfold flat_validb. rewrite forallb_forall. intros H c i j Hc Hi Hj N.
+  specialize (H c Hc). cbv zeta in H. rewrite andb_true_iff in H. destruct H as [_ Ht].
+  assert (T : terminalb meth thr (concept_matrix s (indices wl c)) (induced out (indices wl c)) = true).
+  { destruct meth; [exact Ht| |]; rewrite andb_true_iff in Ht; tauto. }
+  destruct (induced_block out (indices wl c) i Hi) as [va [Hva [_ Fa]]].
+  destruct (induced_block out (indices wl c) j Hj) as [vb [Hvb [_ Fb]]].
+  exists va, vb. split; [exact Fa|]. split; [exact Fb|].
+  destruct (terminalb_sound meth thr _ _ T) as [L|S].
+  - exfalso. destruct (induced out (indices wl c)) as [|x [|y tl]]; [destruct Hva| |cbn in L; lia].
+    destruct Hva as [Ea|[]], Hvb as [Eb|[]]. rewrite Ea in Eb. inversion Eb. congruence.
+  - apply (S _ _ Hva Hvb). cbn [fst]. exact N.
+Qed.
